@@ -242,7 +242,10 @@ func modeC10(rulesFile string) {
 				"a-label-of-more-than-24-octets.z1x.test.", "js.a-label-of-more-than-24-octets.z1x.test.", "x.another-label-of-more-than-24-octets.z2x.test.",
 				// names of many labels (a reverse-lookup name has 34): every label counts, the set's entry is at the far end
 				"1.0.0.0.0.0.0.0.0.0.0.0.0.0.0.0.0.0.0.0.0.0.0.0.8.b.d.0.1.0.0.2.z1.test.", "f.e.d.c.b.a.9.8.7.6.5.4.3.2.1.0.z2.test.",
-				"a.b.c.d.e.f.g.h.i.j.k.l.m.n.o.p.q.r.s.t.u.v.w.x.y.z.other.z3.test."}
+				"a.b.c.d.e.f.g.h.i.j.k.l.m.n.o.p.q.r.s.t.u.v.w.x.y.z.other.z3.test.",
+				// octets above 0x7f in long labels (UTF-8 as it comes, Latin-1): lower-casing is for A-Z only
+				"caf\\195\\169-soci\\195\\169t\\195\\169-CAF\\195\\137.z1.test.", "\\216\\167\\217\\132\\216\\185\\216\\177\\216\\168-Long-Label.z2.test.",
+				"\\193\\194\\200\\218\\219\\192ABCDEFGH\\201\\202.other.z3.test."}
 			par(len(names), func(i int) {
 				lst := []string{"udp", "tcp"}[i%2]
 				q := mkq(uniq() + ".r0t60d0." + names[i])
